@@ -215,7 +215,7 @@ fn verif_native_c10_domain() {
     assert!(fails.is_empty(), "C10.N.domain: FAILSET{{{}}} {} of {} probes wrong, first: {:?}", ids.join(","), fails.len(), n, &fails[..fails.len().min(4)]);
 }
 
-//@n {"id":"C10.N.oneway","props":["C10","C03"],"tier":"quick","bound":"the one-way operators curvature (5 kinds) and gravity (5 formulas), alone and as a step of 6 pipelines (first, middle, last step; inside a macro; inside an inverted macro), 3 tuples; plus the geodesic operator's inverse on 2 near-antipodal pairs between 2 benign pairs; through Minimal","text":"the unsupported inverse of a one-way operator reports zero and leaves the data untouched (bit-identical), alone and when reached as a step of a pipeline, whose count is the minimum over its steps and therefore zero; the forward direction counts every tuple; a geodesic inverse problem that does not converge is NaN and not counted while its neighbours in the set are solved and counted, and whatever is returned as solved satisfies the forward problem"}
+//@n {"id":"C10.N.oneway","props":["C10","C03","C02"],"tier":"quick","bound":"the one-way operators curvature (5 kinds) and gravity (5 formulas), alone and as a step of 6 pipelines (first, middle, last step; inside a macro; inside an inverted macro), 3 tuples; plus the geodesic operator's inverse on 2 near-antipodal pairs between 2 benign pairs; through Minimal","text":"the unsupported inverse of a one-way operator reports zero and leaves the data untouched (bit-identical), alone and when reached as a step of a pipeline, whose count is the minimum over its steps and therefore zero; the forward direction counts every tuple; a geodesic inverse problem that does not converge is NaN and not counted while its neighbours in the set are solved and counted, and whatever is returned as solved satisfies the forward problem"}
 #[test]
 fn verif_native_c10_oneway() {
     let mut ctx = Minimal::default();
